@@ -782,6 +782,11 @@ func LookupTerminfo(name string) (*Terminfo, error) {
 		t.SetFgRGB == "" &&
 		t.SetBgRGB == "" {
 
+		// Amend a copy: the registered entry is shared with every
+		// other name and alias that resolves to it.
+		nt := *t
+		t = &nt
+
 		// Supply vanilla ISO 8613-6:1994 24-bit color sequences.
 		t.SetFgRGB = "\x1b[38;2;%p1%d;%p2%d;%p3%dm"
 		t.SetBgRGB = "\x1b[48;2;%p1%d;%p2%d;%p3%dm"
@@ -790,6 +795,8 @@ func LookupTerminfo(name string) (*Terminfo, error) {
 	}
 
 	if add256color {
+		nt := *t
+		t = &nt
 		t.Colors = 256
 		t.SetFg = "\x1b[%?%p1%{8}%<%t3%p1%d%e%p1%{16}%<%t9%p1%{8}%-%d%e38;5;%p1%d%;m"
 		t.SetBg = "\x1b[%?%p1%{8}%<%t4%p1%d%e%p1%{16}%<%t10%p1%{8}%-%d%e48;5;%p1%d%;m"
